@@ -54,6 +54,13 @@ var inlineNoBreak = map[string]bool{"a": true, "b": true, "i": true, "em": true,
 // n as a browser would show them: text nodes are joined directly, block-level
 // boundaries and <br> separate words.
 func renderedWords(n *html.Node) []string {
+	return wordsOfTree(n, func(x *html.Node) bool { return isPlaceholder(x) || notRendered(x) })
+}
+
+// wordsOfTree: the words of a tree as a browser lays them out; element
+// boundaries separate words unless the element is inline. Subtrees for which
+// skip is true are left out.
+func wordsOfTree(n *html.Node, skip func(*html.Node) bool) []string {
 	var sb strings.Builder
 	var rec func(x *html.Node)
 	rec = func(x *html.Node) {
@@ -62,7 +69,7 @@ func renderedWords(n *html.Node) []string {
 			sb.WriteString(x.Data)
 			return
 		case html.ElementNode:
-			if isPlaceholder(x) || notRendered(x) {
+			if skip != nil && skip(x) {
 				return
 			}
 			if !inlineNoBreak[x.Data] {
@@ -122,6 +129,7 @@ func runC09(c *Ctx, idx int) {
 	prof.Skipped = idx%2 == 0
 	prof.MediaInText = true
 	prof.RelURLs = idx%4 == 0
+	prof.Glue = idx%3 == 0
 	ar, ok := c.runArticle(idx, prof, nil)
 	if !ok {
 		return
